@@ -10,6 +10,34 @@ use crate::check::Known;
 pub static HARVEST: OnceLock<Vec<String>> = OnceLock::new();
 use crate::spec::*;
 
+/// the key under which educe's Into handler files a target or a field type (into/common.rs `to_hash_type`): every leading
+/// reference is stripped and one is put back, with the outermost reference's lifetime when that is written out and
+/// `'static` when it is elided; anything else is compared as written
+pub fn into_key(src: &str) -> String {
+    let mut t = src.trim();
+    if !t.starts_with('&') {
+        return t.split_whitespace().collect::<Vec<_>>().join(" ");
+    }
+    let mut outer: Option<String> = None;
+    let mut first = true;
+    while let Some(rest) = t.strip_prefix('&') {
+        let mut r = rest.trim_start();
+        if let Some(after) = r.strip_prefix('\'') {
+            let n = after.find(|c: char| !(c.is_alphanumeric() || c == '_')).unwrap_or(after.len());
+            if first {
+                outer = Some(after[..n].to_string());
+            }
+            r = after[n..].trim_start();
+        }
+        if let Some(after) = r.strip_prefix("mut ") {
+            r = after.trim_start();
+        }
+        first = false;
+        t = r;
+    }
+    format!("&'{} {}", outer.unwrap_or_else(|| "static".to_string()), t.split_whitespace().collect::<Vec<_>>().join(" "))
+}
+
 pub fn erase_lifetimes(s: &str) -> String {
     let mut out = String::new();
     let mut it = s.chars().peekable();
@@ -57,6 +85,9 @@ pub fn debug_variant_view(s: &TypeSpec, vi: usize) -> (bool, bool, usize) {
 /// names of all signatures whose case predicate matches this spec
 pub fn spec_signatures(s: &TypeSpec) -> Vec<&'static str> {
     let mut out = Vec::new();
+    if !s.method_alias.is_empty() {
+        out.push("method_function_named_like_a_generated_binding");
+    }
     if s.kind == Kind::Enum && s.has(Tr::Debug) {
         for vi in 0..s.variants.len() {
             let (name, named, _shown) = debug_variant_view(s, vi);
@@ -163,6 +194,7 @@ pub fn failure_matches(sig: &str, msg: &str) -> bool {
         "field_types_differ_only_in_lifetime" => msg.contains("E0283") || msg.contains("E0204") || msg.contains("E0308") || msg.contains("lifetime may not live long enough"),
         "debug_unsized_tail" => msg.contains("E0277"),
         "const_parameter_named_like_a_generated_binding" => msg.contains("E0308") || msg.contains("E0158") || msg.contains("E0530") || msg.contains("E0005") || msg.contains("E0423") || msg.contains("E0532"),
+        "method_function_named_like_a_generated_binding" => msg.contains("E0618") || msg.contains("E0434"),
         "user_item_named_like_an_internal_helper_type" => msg.contains("does not compile"),
         "union_hash_without_leading_unsafe" => msg.contains("panic"),
         "copy_attribute_below_type_level_while_clone_is_educed" => msg.contains("accepted"),
